@@ -178,6 +178,9 @@ const (
 	PaddingWidth     PaddingType = "WIDTH"
 )
 
+// MaxPaddingLength is the greatest length that LPAD and RPAD pad a string to.
+const MaxPaddingLength = 1 << 20
+
 func Coalesce(fn parser.Function, args []value.Primary, _ *option.Flags) (value.Primary, error) {
 	if len(args) < 1 {
 		return nil, NewFunctionArgumentLengthErrorWithCustomArgs(fn, fn.Name, "at least 1 argument")
@@ -822,6 +825,13 @@ func execStringsPadding(fn parser.Function, args []value.Primary, direction Dire
 
 	if length <= strLen {
 		return args[0], nil
+	}
+
+	if padstrLen < 1 {
+		return nil, NewFunctionInvalidArgumentError(fn, fn.Name, "the length of the pad string must be greater than 0")
+	}
+	if MaxPaddingLength < length {
+		return nil, NewFunctionInvalidArgumentError(fn, fn.Name, fmt.Sprintf("the length after padding must be less than or equal to %d", MaxPaddingLength))
 	}
 
 	padLen := length - strLen
